@@ -292,17 +292,18 @@ func Materialize(t Tree, dir string) error {
 }
 
 func applyMeta(p string, n Node) error {
-	for k, v := range n.Xattrs {
-		if err := unix.Lsetxattr(p, k, []byte(v), 0); err != nil {
-			return fmt.Errorf("lsetxattr %s %s: %w", p, k, err)
-		}
-	}
 	if err := os.Lchown(p, int(n.UID), int(n.GID)); err != nil {
 		return err
 	}
 	if n.Kind != Symlink {
 		if err := unix.Chmod(p, n.Perm&07777); err != nil {
 			return err
+		}
+	}
+	// after chown: the kernel drops security.capability when the owner is set
+	for k, v := range n.Xattrs {
+		if err := unix.Lsetxattr(p, k, []byte(v), 0); err != nil {
+			return fmt.Errorf("lsetxattr %s %s: %w", p, k, err)
 		}
 	}
 	return Utime(p, n.Mtime)
